@@ -27,6 +27,8 @@ structure Inv (s : Sys) : Prop where
   th : ∀ (tid : Nat) (th : Thread), s.threads[tid]? = some th → ThInv s th
   ev : ∀ e ∈ s.log, EventOk s.states e ∧ e.retAt < s.pos
   silent : ∀ k, k < s.pos → (s.states[k + 1]? = s.states[k]? ∨ ∃ e ∈ s.log, e.retAt = k ∧ e.how = .exact)
+  mono : s.log.Pairwise (fun a b => a.retAt < b.retAt)
+  first : s.states[0]? = some none
 
 theorem EventOk.mono {st : List (Option Entry)} {e : Event} (x : Option Entry) (h : EventOk st e) :
     EventOk (st ++ [x]) e := by
@@ -65,7 +67,7 @@ theorem getElem?_snoc_lt {α} {l : List α} {x : α} {k : Nat} (h : k < l.length
 theorem getElem?_snoc_eq {α} {l : List α} {x : α} : (l ++ [x])[l.length]? = some x := by simp
 
 theorem Inv.init (n : Nat) : Inv (Sys.init n) := by
-  refine ⟨?_, by simp [Sys.init], by simp [Sys.init, Sys.pos, abs], ?_, by simp [Sys.init], by simp [Sys.init, Sys.pos]⟩
+  refine ⟨?_, by simp [Sys.init], by simp [Sys.init, Sys.pos, abs], ?_, by simp [Sys.init], by simp [Sys.init, Sys.pos], by simp [Sys.init], by simp [Sys.init]⟩
   · intro c hc; simp [Sys.init] at hc
   · intro tid th h
     have : th = {} := by
@@ -97,7 +99,8 @@ theorem Inv.quiet {s s' : Sys} (h : Inv s) (hsh : s'.sh = s.sh) (hst : s'.states
   have hne := h.ne
   have hpos : s'.pos = s.pos + 1 := by simp [Sys.pos, hst]; omega
   have hlen : s.pos + 1 = s.states.length := by simp [Sys.pos]; omega
-  refine ⟨by rw [hsh]; exact h.wf, by rw [hst]; simp, ?_, hth, ?_, ?_⟩
+  refine ⟨by rw [hsh]; exact h.wf, by rw [hst]; simp, ?_, hth, ?_, ?_, by rw [hlog]; exact h.mono,
+    by rw [hst, getElem?_snoc_lt hne]; exact h.first⟩
   · rw [hpos, hst, hlen, hsh]; exact getElem?_snoc_eq
   · intro e he
     rw [hlog] at he
@@ -136,7 +139,20 @@ theorem Inv.run {s : Sys} (h : Inv s) (tid wall : Nat) (th : Thread) (hth : s.th
   have hpos' : ∀ (t : List Thread) (l : List Event),
       ({ sh := r.sh, threads := t, states := s.states ++ [abs r.sh], log := l } : Sys).pos = s.pos + 1 := by
     intro t l; simp [Sys.pos]; omega
-  refine ⟨by rw [← hr]; exact step_wf wall th.pc h.wf, by simp, ?_, ?_, ?_, ?_⟩
+  refine ⟨by rw [← hr]; exact step_wf wall th.pc h.wf, by simp, ?_, ?_, ?_, ?_, ?_,
+    by show (s.states ++ [abs r.sh])[0]? = _; rw [getElem?_snoc_lt hne]; exact h.first⟩
+  rotate_right
+  · -- the log stays ordered by return position
+    show (runLog s tid th r).Pairwise _
+    simp only [runLog]
+    split
+    · exact h.mono
+    · rw [List.pairwise_append]
+      refine ⟨h.mono, by simp, ?_⟩
+      intro a ha b hb
+      simp only [List.mem_singleton] at hb
+      subst hb
+      exact (h.ev a ha).2
   · rw [hpos', hlen]; exact getElem?_snoc_eq
   · intro tid' th' hget
     simp only [List.getElem?_set] at hget
